@@ -14,6 +14,11 @@
 (*                 connection, optional update tag                         *)
 (*   Beat          HTTP heart-beat = Update with the all-false tag         *)
 (*   SyncUpdate    NamingCmd::UpdateFromSync / UpdateBatch (other node)    *)
+(*   RefreshRange  NamingCmd::ClusterRefreshProcessRange: the set of       *)
+(*                 services this node is responsible for changes (a node   *)
+(*                 died or joined); HTTP instances of the services it now  *)
+(*                 owns are TAKEN OVER: they become its own and are put    *)
+(*                 under heart-beat supervision                            *)
 (*   Deregister    NamingCmd::Delete with a presented client id            *)
 (*   Disconnect    NamingCmd::RemoveClient                                 *)
 (*   TimeCheck     the periodic sweep of the two timeout queues            *)
@@ -28,8 +33,14 @@ CONSTANTS
     Nodes,                  \* other cluster nodes (their sync client ids)
     H, T,                   \* health / instance time-out in ticks, H < T
     MaxNow, MaxOps,
-    Defect_ClientSetBeforeOwner  \* TRUE: the connection map is updated from the REQUEST's client id before the
+    SyncHttpClientIds,      \* TRUE: HTTP instances synced from other nodes may carry a client id (no real sender does)
+    Record,                 \* TRUE: keep the full history of operations and observations (generation of behaviours)
+    Defect_ClientSetBeforeOwner, \* TRUE: the connection map is updated from the REQUEST's client id before the
                                  \* service decided who owns the instance (code before the fix)
+    Defect_NoArmOnSync,          \* TRUE: an update that arrives by cluster sync never arms a time-out queue, and an
+                                 \* unhealthy instance is armed in the healthy queue (code before fix 4a2756a)
+    Defect_TakeoverKeepsOrigin   \* TRUE: a taken-over instance keeps its from-cluster mark, so the sweep skips it
+                                 \* (code before the take-over fix)
 
 VARIABLES
     inst,       \* svc -> (addr -> instance record)
@@ -40,15 +51,19 @@ VARIABLES
     index,      \* set of services listed in the namespace/group index
     exists,     \* set of services present in service_map
     emptyAt,    \* svc -> time at which the service last became empty (last_empty_times), -1 = never
+    own,        \* set of services in this node's process range (current_range; {} on a stand-alone node)
     now, ops, hist
 
-vars == <<inst, cnt, hcnt, perp, hto, uto, cset, index, exists, emptyAt, now, ops, hist>>
+vars == <<inst, cnt, hcnt, perp, hto, uto, cset, index, exists, emptyAt, own, now, ops, hist>>
 
 Clients == Conns \cup Nodes
 NoTag == [weight |-> TRUE, metadata |-> TRUE, enabled |-> TRUE, ephemeral |-> TRUE]    \* full update
 BeatTag == [weight |-> FALSE, metadata |-> FALSE, enabled |-> FALSE, ephemeral |-> FALSE]
 TimeoutEnabled(i) == i.eph /\ ~i.grpc /\ ~i.fc
 
+\* the history of a behaviour (for export to the replay harness) is kept only when Record is set; model checking keeps
+\* just the name of the last operation, which the action properties below look at
+Rec(opname, r) == IF Record THEN Append(hist, r) ELSE <<[op |-> opname]>>
 Put(f, k, v) == [x \in (DOMAIN f) \cup {k} |-> IF x = k THEN v ELSE f[x]]
 Del(f, k) == [x \in (DOMAIN f) \ {k} |-> f[x]]
 Has(s, a) == a \in DOMAIN inst[s]
@@ -85,12 +100,20 @@ SvcUpdate(s, a, new0, tag, fromSync) ==
         cnt |-> IF exists0 THEN cnt[s] ELSE cnt[s] + 1,
         hcnt |-> hcnt[s] + hdelta,
         perp |-> IF addPerp THEN perp[s] \cup {a} ELSE IF remPerp THEN perp[s] \ {a} ELSE perp[s],
-        hto |-> IF TimeoutEnabled(n2) /\ ~fromSync THEN hto[s] \cup {[a |-> a, t |-> n2.lm]} ELSE hto[s],
+        \* every instance this node supervises is armed, whatever path delivered it: healthy ones wait for the
+        \* health time-out, already unhealthy ones for the instance time-out
+        hto |-> IF Defect_NoArmOnSync
+                THEN (IF TimeoutEnabled(n2) /\ ~fromSync THEN hto[s] \cup {[a |-> a, t |-> n2.lm]} ELSE hto[s])
+                ELSE (IF TimeoutEnabled(n2) /\ n2.h THEN hto[s] \cup {[a |-> a, t |-> n2.lm]} ELSE hto[s]),
+        uto |-> IF ~Defect_NoArmOnSync /\ TimeoutEnabled(n2) /\ ~n2.h THEN uto[s] \cup {[a |-> a, t |-> n2.lm]} ELSE uto[s],
         replaced |-> replaced, final |-> n2]
 
 \* NamingActor::update_instance
-DoUpdate(s, a, new, tag, fromSync, opname) ==
-    LET r == SvcUpdate(s, a, new, tag, fromSync)
+\* an instance of a service this node is responsible for that is not owned by a gRPC connection becomes the node's own
+Adopt(s, i) == IF s \in own /\ ~i.grpc THEN [i EXCEPT !.fc = FALSE, !.cl = ""] ELSE i
+DoUpdate(s, a, new0, tag, fromSync, opname) ==
+    LET new == Adopt(s, new0)
+        r == SvcUpdate(s, a, new, tag, fromSync)
         who == IF Defect_ClientSetBeforeOwner THEN new ELSE r.final
         cs1 == IF (who.grpc \/ who.fc) /\ who.cl # ""
                THEN [cset EXCEPT ![who.cl] = @ \cup {<<s, a>>}] ELSE cset
@@ -100,17 +123,20 @@ DoUpdate(s, a, new, tag, fromSync, opname) ==
        /\ hcnt' = [hcnt EXCEPT ![s] = r.hcnt]
        /\ perp' = [perp EXCEPT ![s] = r.perp]
        /\ hto' = [hto EXCEPT ![s] = r.hto]
+       /\ uto' = [uto EXCEPT ![s] = r.uto]
        /\ cset' = cs2
        /\ index' = index \cup {s} /\ exists' = exists \cup {s}
-       /\ UNCHANGED <<uto, emptyAt, now>>
+       /\ UNCHANGED <<emptyAt, own, now>>
        /\ ops < MaxOps /\ ops' = ops + 1
-       /\ hist' = Append(hist, [op |-> opname, s |-> s, a |-> a, new |-> new, tag |-> tag, from_sync |-> fromSync, now |-> now,
+       /\ hist' = Rec(opname, [op |-> opname, s |-> s, a |-> a, new |-> new0, eff |-> new, tag |-> tag, from_sync |-> fromSync, now |-> now,
                                 obs |-> [inst |-> inst', cnt |-> cnt', hcnt |-> hcnt', perp |-> perp', cset |-> cset', index |-> index',
                                       q_all |-> [x \in Svcs |-> QueryOf(inst'[x], FALSE)], q_healthy |-> [x \in Svcs |-> QueryOf(inst'[x], TRUE)]]])
 
 HttpInst(eph, en, w) == [h |-> TRUE, en |-> en, eph |-> eph, grpc |-> FALSE, fc |-> FALSE, cl |-> "", lm |-> now, w |-> w]
 GrpcInst(c, eph, en, w) == [h |-> TRUE, en |-> en, eph |-> eph, grpc |-> TRUE, fc |-> FALSE, cl |-> c, lm |-> now, w |-> w]
-SyncInst(n, grpc, h) == [h |-> h, en |-> TRUE, eph |-> TRUE, grpc |-> grpc, fc |-> TRUE, cl |-> n, lm |-> now, w |-> 1]
+\* what the other nodes send: a connection-owned instance carries its connection's id (here: one id per sending node),
+\* an HTTP instance carries none (its owner cleared it) - unless SyncHttpClientIds over-approximates the senders
+SyncInst(n, grpc, h) == [h |-> h, en |-> TRUE, eph |-> TRUE, grpc |-> grpc, fc |-> TRUE, cl |-> IF grpc \/ SyncHttpClientIds THEN n ELSE "", lm |-> now, w |-> 1]
 
 RegisterHttp(s, a, eph, en, w) == DoUpdate(s, a, HttpInst(eph, en, w), NoTag, FALSE, "register_http")
 RegisterGrpc(s, a, c, eph) == DoUpdate(s, a, GrpcInst(c, eph, TRUE, 1), NoTag, FALSE, "register_grpc")
@@ -140,9 +166,9 @@ Install(st) == /\ inst' = st.inst /\ cnt' = st.cnt /\ hcnt' = st.hcnt /\ perp' =
 Deregister(s, a, client) ==
     /\ s \in exists
     /\ Install(RemoveOne(Cur, s, a, client, TRUE))
-    /\ UNCHANGED <<hto, uto, index, exists, now>>
+    /\ UNCHANGED <<hto, uto, index, exists, own, now>>
     /\ ops < MaxOps /\ ops' = ops + 1
-    /\ hist' = Append(hist, [op |-> "deregister", s |-> s, a |-> a, client |-> client, now |-> now,
+    /\ hist' = Rec("deregister", [op |-> "deregister", s |-> s, a |-> a, client |-> client, now |-> now,
                              obs |-> [inst |-> inst', cnt |-> cnt', hcnt |-> hcnt', perp |-> perp', cset |-> cset', index |-> index',
                                       q_all |-> [x \in Svcs |-> QueryOf(inst'[x], FALSE)], q_healthy |-> [x \in Svcs |-> QueryOf(inst'[x], TRUE)]]])
 
@@ -155,9 +181,9 @@ Disconnect(c) ==
     /\ LET keys == cset[c]
            st0 == [Cur EXCEPT !.cset = [cset EXCEPT ![c] = {}]]
        IN Install(RemoveAll(st0, keys, c))
-    /\ UNCHANGED <<hto, uto, index, exists, now>>
+    /\ UNCHANGED <<hto, uto, index, exists, own, now>>
     /\ ops < MaxOps /\ ops' = ops + 1
-    /\ hist' = Append(hist, [op |-> "disconnect", client |-> c, now |-> now,
+    /\ hist' = Rec("disconnect", [op |-> "disconnect", client |-> c, now |-> now,
                              obs |-> [inst |-> inst', cnt |-> cnt', hcnt |-> hcnt', perp |-> perp', cset |-> cset', index |-> index',
                                       q_all |-> [x \in Svcs |-> QueryOf(inst'[x], FALSE)], q_healthy |-> [x \in Svcs |-> QueryOf(inst'[x], TRUE)]]])
 
@@ -192,8 +218,8 @@ TimeCheck ==
           /\ uto' = [s \in Svcs |-> res[s].uto]
           /\ hto' = [s \in Svcs |-> res[s].hto]
           /\ emptyAt' = [s \in Svcs |-> IF res[s].removed # {} /\ res[s].cnt = 0 THEN now ELSE emptyAt[s]]
-          /\ UNCHANGED <<perp, cset, index, exists, now>>
-          /\ hist' = Append(hist, [op |-> "time_check", now |-> now,
+          /\ UNCHANGED <<perp, cset, index, exists, own, now>>
+          /\ hist' = Rec("time_check", [op |-> "time_check", now |-> now,
                                    removed |-> [s \in Svcs |-> res[s].removed], marked |-> [s \in Svcs |-> res[s].marked],
                                    obs |-> [inst |-> inst', cnt |-> cnt', hcnt |-> hcnt', perp |-> perp', cset |-> cset', index |-> index',
                                       q_all |-> [x \in Svcs |-> QueryOf(inst'[x], FALSE)], q_healthy |-> [x \in Svcs |-> QueryOf(inst'[x], TRUE)]]])
@@ -206,17 +232,37 @@ ClearEmpty ==
          /\ exists' = exists \ gone /\ index' = index \ gone
          /\ hto' = [s \in Svcs |-> IF s \in gone THEN {} ELSE hto[s]]
          /\ uto' = [s \in Svcs |-> IF s \in gone THEN {} ELSE uto[s]]
-    /\ UNCHANGED <<inst, cnt, hcnt, perp, cset, emptyAt, now>>
+    /\ UNCHANGED <<inst, cnt, hcnt, perp, cset, emptyAt, own, now>>
     /\ ops < MaxOps /\ ops' = ops + 1
-    /\ hist' = Append(hist, [op |-> "clear_empty", now |-> now,
+    /\ hist' = Rec("clear_empty", [op |-> "clear_empty", now |-> now,
+                             obs |-> [inst |-> inst', cnt |-> cnt', hcnt |-> hcnt', perp |-> perp', cset |-> cset', index |-> index',
+                                      q_all |-> [x \in Svcs |-> QueryOf(inst'[x], FALSE)], q_healthy |-> [x \in Svcs |-> QueryOf(inst'[x], TRUE)]]])
+
+\* ------------------------------------------------------------------ NamingActor::refresh_process_range
+\* the range of services this node is responsible for becomes newOwn; in every service of the new range the instances
+\* that came from another node and are not connection-owned are taken over (Service::do_refresh_process_range)
+TakeOver(s) ==
+    LET taken == {a \in DOMAIN inst[s] : ~inst[s][a].grpc /\ inst[s][a].fc}
+        flip(i) == IF i.eph /\ ~Defect_TakeoverKeepsOrigin THEN [i EXCEPT !.fc = FALSE] ELSE i
+    IN [inst |-> [a \in DOMAIN inst[s] |-> IF a \in taken THEN flip(inst[s][a]) ELSE inst[s][a]],
+        hto |-> hto[s] \cup {[a |-> a, t |-> inst[s][a].lm] : a \in {x \in taken : inst[s][x].h \/ Defect_TakeoverKeepsOrigin}},
+        uto |-> uto[s] \cup {[a |-> a, t |-> inst[s][a].lm] : a \in {x \in taken : ~inst[s][x].h /\ ~Defect_TakeoverKeepsOrigin}}]
+RefreshRange(newOwn) ==
+    /\ newOwn # own /\ own' = newOwn
+    /\ inst' = [s \in Svcs |-> IF s \in newOwn /\ s \in exists THEN TakeOver(s).inst ELSE inst[s]]
+    /\ hto' = [s \in Svcs |-> IF s \in newOwn /\ s \in exists THEN TakeOver(s).hto ELSE hto[s]]
+    /\ uto' = [s \in Svcs |-> IF s \in newOwn /\ s \in exists THEN TakeOver(s).uto ELSE uto[s]]
+    /\ UNCHANGED <<cnt, hcnt, perp, cset, index, exists, emptyAt, now>>
+    /\ ops < MaxOps /\ ops' = ops + 1
+    /\ hist' = Rec("refresh_range", [op |-> "refresh_range", own |-> newOwn, now |-> now,
                              obs |-> [inst |-> inst', cnt |-> cnt', hcnt |-> hcnt', perp |-> perp', cset |-> cset', index |-> index',
                                       q_all |-> [x \in Svcs |-> QueryOf(inst'[x], FALSE)], q_healthy |-> [x \in Svcs |-> QueryOf(inst'[x], TRUE)]]])
 
 Tick ==
     /\ now < MaxNow /\ now' = now + 1
-    /\ UNCHANGED <<inst, cnt, hcnt, perp, hto, uto, cset, index, exists, emptyAt>>
+    /\ UNCHANGED <<inst, cnt, hcnt, perp, hto, uto, cset, index, exists, emptyAt, own>>
     /\ ops < MaxOps /\ ops' = ops + 1
-    /\ hist' = Append(hist, [op |-> "tick", now |-> now + 1,
+    /\ hist' = Rec("tick", [op |-> "tick", now |-> now + 1,
                              obs |-> [inst |-> inst', cnt |-> cnt', hcnt |-> hcnt', perp |-> perp', cset |-> cset', index |-> index',
                                       q_all |-> [x \in Svcs |-> QueryOf(inst'[x], FALSE)], q_healthy |-> [x \in Svcs |-> QueryOf(inst'[x], TRUE)]]])
 
@@ -225,7 +271,7 @@ Init ==
     /\ cnt = [s \in Svcs |-> 0] /\ hcnt = [s \in Svcs |-> 0]
     /\ perp = [s \in Svcs |-> {}] /\ hto = [s \in Svcs |-> {}] /\ uto = [s \in Svcs |-> {}]
     /\ cset = [c \in Clients |-> {}]
-    /\ index = {} /\ exists = {} /\ emptyAt = [s \in Svcs |-> -1]
+    /\ index = {} /\ exists = {} /\ emptyAt = [s \in Svcs |-> -1] /\ own = {}
     /\ now = 0 /\ ops = 0 /\ hist = <<>>
 
 Next ==
@@ -236,6 +282,7 @@ Next ==
     \/ \E s \in Svcs, a \in Addrs, n \in Nodes, g \in BOOLEAN, h \in BOOLEAN : SyncUpdate(s, a, n, g, h)
     \/ \E s \in Svcs, a \in Addrs, c \in Clients \cup {""} : Deregister(s, a, c)
     \/ \E c \in Clients : Disconnect(c)
+    \/ \E o \in SUBSET Svcs : RefreshRange(o)
     \/ TimeCheck
     \/ ClearEmpty
     \/ Tick
@@ -258,6 +305,14 @@ ArmedHealthy == \A s \in Svcs : \A a \in DOMAIN inst[s] :
                     (TimeoutEnabled(inst[s][a]) /\ inst[s][a].h /\ s \in exists) => [a |-> a, t |-> inst[s][a].lm] \in hto[s]
 ArmedUnhealthy == \A s \in Svcs : \A a \in DOMAIN inst[s] :
                     (TimeoutEnabled(inst[s][a]) /\ ~inst[s][a].h /\ s \in exists) => \E e \in uto[s] : e.a = a /\ e.t <= inst[s][a].lm
+\* the node supervises every ephemeral instance of a service it is responsible for that no gRPC connection owns
+OwnedSupervised == \A s \in own : \A a \in DOMAIN inst[s] : (inst[s][a].eph /\ ~inst[s][a].grpc) => ~inst[s][a].fc
+\* ... so that a silent one is unhealthy after the next sweep once H has passed - also after a take-over
+OwnedExpiredAfterSweep ==
+    [][(ops' = ops + 1 /\ hist'[Len(hist')].op = "time_check") =>
+         \A s \in own : \A a \in DOMAIN inst[s] :
+            (inst[s][a].eph /\ ~inst[s][a].grpc /\ inst[s][a].h /\ inst[s][a].lm <= now - H /\ s \in exists)
+               => (a \in DOMAIN inst'[s] => ~inst'[s][a].h)]_vars
 \* an instance whose beats keep arriving within H is never marked unhealthy or removed by the sweep
 NeverExpireWhileBeating ==
     [][(ops' = ops + 1 /\ hist'[Len(hist')].op = "time_check") =>
@@ -274,8 +329,9 @@ ExpiredAfterSweep ==
          \A s \in Svcs : \A a \in DOMAIN inst[s] :
             (TimeoutEnabled(inst[s][a]) /\ inst[s][a].h /\ inst[s][a].lm <= now - H) => (a \in DOMAIN inst'[s] => ~inst'[s][a].h)]_vars
 
+NoRange == own = {}
 Done == ops = MaxOps
 Obs == [inst |-> inst, cnt |-> cnt, hcnt |-> hcnt, perp |-> perp, cset |-> cset, index |-> index]
 ExportBehaviour == Done => PrintT(<<"REPLAY", ToJson([steps |-> hist, final |-> Obs])>>)
-StateView == <<inst, cnt, hcnt, perp, hto, uto, cset, index, exists, emptyAt, now>>
+StateView == <<inst, cnt, hcnt, perp, hto, uto, cset, index, exists, emptyAt, own, now>>
 =============================================================================
